@@ -516,8 +516,11 @@ def _fails(pid, stream, case, against):
     if err or not impl:
         return None
     a = stream.canon(impl[0])
-    if getattr(stream, 'valid_case', None) and not stream.valid_case(case):
-        return None          # shrinking must not leave the space of valid programs
+    try:
+        if getattr(stream, 'valid_case', None) and not stream.valid_case(case):
+            return None          # shrinking must not leave the space of valid programs
+    except Exception:
+        return None
     if 'PANIC' in a or a.startswith('CRASH') or a == 'TIMEOUT':
         return None          # shrinking must not leave the space of valid programs
     if against == 'judge':
